@@ -18,7 +18,7 @@ import numpy as np
 import core
 import gen
 
-PROOF_MODULES = ["UnytProofs.C19", "UnytProofs.Real.C19Allclose"]
+PROOF_MODULES = ["UnytProofs.C19", "UnytProofs.Real.C19Allclose", "UnytProofs.Real.C19Affine"]
 
 # relative safety margin around the tolerance threshold: cases closer than this (in exact
 # arithmetic) are "borderline" — their verdict legitimately depends on floating-point rounding
